@@ -223,6 +223,7 @@ func cmdCheck(args []string) int {
 		fmt.Fprintf(os.Stderr, "unknown property %s\n", id)
 		return 2
 	}
+	overlayFilter = strings.ToLower(id)
 	start := time.Now()
 	evPath := filepath.Join(verifDir, "evidence", id+".json")
 	os.MkdirAll(filepath.Join(verifDir, "evidence", "replays"), 0o755)
@@ -690,6 +691,7 @@ func cmdReplay(args []string) int {
 		return 2
 	}
 	pc := registry[rf.Property]
+	overlayFilter = strings.ToLower(rf.Property)
 	genOverlay := map[string]string{}
 	if pc != nil && pc.Gen != nil {
 		genDir, err := os.MkdirTemp("", "gosym-gen-")
